@@ -43,5 +43,6 @@ def mid_value_dom_heuristic(
         dom_update_stack,
         stacks_top,
         dom_idx,
-        (shr_domains_stack[stacks_top[0], dom_idx, MIN] + shr_domains_stack[stacks_top[0], dom_idx, MAX]) // 2,
+        # the bounds are 32 bits wide, their sum may not be
+        (int(shr_domains_stack[stacks_top[0], dom_idx, MIN]) + int(shr_domains_stack[stacks_top[0], dom_idx, MAX])) // 2,
     )
